@@ -149,31 +149,38 @@ let run_ls id rest =
   let ss = match String.split_on_char ',' (get f "imp") with
     | [i; t; ty] -> ls_snapshot (n_of_string i) (n_of_string t) (n_of_string ty) true
     | _ -> failwith "bad imp" in
-  let ls = ref empty_logstore in
+  let ts = ref empty_tstore in
+  (* Pebble has no compaction point: compaction deletes the entries *)
+  let ap o = if tan then ts := apply_tsop !ts o
+    else ts := { ts_ls = apply_lsop (!ts).ts_ls o; ts_compacted = N0 } in
   if body <> "" then
     List.iter (fun op ->
         match split_ws op with
         | ["state"; t; v; c] ->
-          ls := apply_lsop !ls (LSaveState { hs_term = n_of_string t; hs_vote = n_of_string v; hs_commit = n_of_string c })
+          ap (LSaveState { hs_term = n_of_string t; hs_vote = n_of_string v; hs_commit = n_of_string c })
         | ["ents"; first; count; term] ->
-          ls := apply_lsop !ls (LSaveState { hs_term = n_of_string term; hs_vote = N0; hs_commit = n_of_string first });
-          ls := apply_lsop !ls (LSaveEntries (n_of_string first, n_of_string count, n_of_string term))
+          ap (LSaveState { hs_term = n_of_string term; hs_vote = N0; hs_commit = n_of_string first });
+          ap (LSaveEntries (n_of_string first, n_of_string count, n_of_string term))
         | ["snap"; i; t] ->
-          ls := apply_lsop !ls (LSaveSnapshot (ls_snapshot (n_of_string i) (n_of_string t) (n_of_int 1) false))
+          ap (LSaveSnapshot (ls_snapshot (n_of_string i) (n_of_string t) (n_of_int 1) false))
         | ["boot"; j; ty] ->
-          ls := apply_lsop !ls (LSaveBootstrap { bs_join = (j = "1"); bs_type = n_of_string ty;
-                                                 bs_addresses = [(ls_replica, bytes_of_string "a3")] })
+          ap (LSaveBootstrap { bs_join = (j = "1"); bs_type = n_of_string ty;
+                               bs_addresses = [(ls_replica, bytes_of_string "a3")] })
+        | ["compact"; i] -> ap (LCompact (n_of_string i))
         | ["reopen"] -> ()
         | _ -> ()) (Str.split (Str.regexp_string " ; ") body);
-  let res = if tan then LOk (tan_import !ls ss) else logdb_import !ls ss in
+  let res = if tan then Some (tan_import_t !ts ss)
+    else (match logdb_import (!ts).ts_ls ss with
+        | LOk l -> Some { ts_ls = l; ts_compacted = N0 } | LPanic -> None) in
   match res with
-  | LPanic -> Printf.printf "%s ls import PANIC-UNKNOWN-TYPE\n" id
-  | LOk l ->
+  | None -> Printf.printf "%s ls import PANIC-UNKNOWN-TYPE\n" id
+  | Some t ->
+    let l = t.ts_ls in
+    let vis = List.length (ts_visible_entries t ss.s_index) in
     let state_s = match l.ls_state with
       | None -> "NOLOG"
       | Some h ->
-        Printf.sprintf "%s/%s/%s count=%d" (string_of_n h.hs_term) (string_of_n h.hs_vote) (string_of_n h.hs_commit)
-          (List.length (ls_visible_entries l ss.s_index)) in
+        Printf.sprintf "%s/%s/%s count=%d" (string_of_n h.hs_term) (string_of_n h.hs_vote) (string_of_n h.hs_commit) vis in
     let snap_s = match ls_get_snapshot l with
       | None -> "0/0/imported=false/type=0/a=[]/r=[]"
       | Some s ->
@@ -182,8 +189,15 @@ let run_ls id rest =
     let boot_s = match l.ls_bootstrap with
       | None -> "NONE"
       | Some b -> Printf.sprintf "join=%b/type=%s/addrs=%d" b.bs_join (string_of_n b.bs_type) (List.length b.bs_addresses) in
-    Printf.printf "%s ls post state=%s snap=%s boot=%s visible=%d\n" id state_s snap_s boot_s
-      (List.length (ls_visible_entries l ss.s_index))
+    Printf.printf "%s ls post state=%s snap=%s boot=%s visible=%d\n" id state_s snap_s boot_s vis;
+    (* life after the repair: k entries appended above the imported index *)
+    let life = if get f "life" = "" then n_of_int 3 else getn f "life" in
+    if life <> N0 then begin
+      let op = LSaveEntries (util_add ss.s_index (n_of_int 1), life, util_add ss.s_term (n_of_int 1)) in
+      let t2 = if tan then apply_tsop t op else { ts_ls = apply_lsop t.ts_ls op; ts_compacted = N0 } in
+      let k = List.length (ts_visible_entries t2 ss.s_index) in
+      Printf.printf "%s ls life now=%d count=%d reopened=%d\n" id k k k
+    end
 
 (* ---- end-to-end cases: the model predicts, per trial, whether ImportSnapshot
    refuses, and the membership after the repair. The export is represented by a
@@ -263,8 +277,15 @@ let run_e2e id rest =
                           in_meta = meta; in_file = file; in_ssdir_exists = true;
                           in_final_dir = bytes_of_string "/t/final"; in_env_fail = [] } in
               (* an earlier run on the same host: first=<replica>/<members> *)
+              (* the record is found by NewNodeHost only if the tool wrote it into the
+                 store NewNodeHost opens (data dir + low latency dir) *)
+              let nhdir = bytes_of_string "/h/data" in
+              let waldir = match get f "wal" with
+                | "same" -> nhdir | "distinct" -> bytes_of_string "/h/wal" | _ -> [] in
+              let found = tan || same_dirs (tool_store_dirs nhdir waldir) (nodehost_store_dirs nhdir waldir) in
               let store_after ls ss =
-                if tan then Some (tan_import ls ss)
+                if not found then None
+                else if tan then Some (tan_import ls ss)
                 else (match logdb_import ls ss with LOk l -> Some l | LPanic -> None) in
               let first_ok, ls1 = match more with
                 | fst_s :: _ when String.length fst_s > 6 && String.sub fst_s 0 6 = "first=" ->
